@@ -4,7 +4,7 @@ import re
 
 from ..facts import (AnalysisBroken, walk, strip_casts, expr_str, is_null_const, const_val, ASSIGN_OPS, callee_name)
 from ..dataflow import node_effects
-from .common import all_functions, assignments, is_ref, node_containing, guarded_by, cmp_parts
+from .common import all_functions, assignments, is_ref, node_containing, guarded_by, cmp_parts, region_without_edges
 
 LOOKUP = {'get_item_from_pointer', 'cJSONUtils_GetPointer', 'cJSONUtils_GetPointerCaseSensitive'}
 # calls that may unlink or release nodes anywhere below their first argument
@@ -794,6 +794,72 @@ def _range_decides(u, e):
     return None
 
 
+def _null_edge_of(e):
+    """(ref, label) when the atomic condition e tests a plain variable against NULL: label is the edge on which it IS NULL."""
+    e = strip_casts(e)
+    neg = False
+    while e.get('k') == 'un' and e['op'] == '!':
+        neg = not neg
+        e = strip_casts(e['e'])
+    if e.get('k') == 'ref':
+        return e, ('T' if neg else 'F')
+    if e.get('k') == 'bin' and e['op'] in ('==', '!='):
+        for (x, y) in ((e['l'], e['r']), (e['r'], e['l'])):
+            if is_null_const(y) and strip_casts(x).get('k') == 'ref':
+                isnull = 'T' if e['op'] == '==' else 'F'
+                if neg:
+                    isnull = 'F' if isnull == 'T' else 'T'
+                return strip_casts(x), isnull
+    return None, None
+
+
+def _fresh_pointer_locals(u, h):
+    """Pointer locals of h whose every definition is a call result or NULL, at least one a call: fresh allocations."""
+    fresh = set()
+    for d in h.locals():
+        srcs = [d['init']] if 'init' in d else []
+        srcs += [a['r'] for a in assignments(h) if strip_casts(a['l']).get('k') == 'ref' and strip_casts(a['l'])['d'] == d['d']]
+        if srcs and u.ty(d['ty'])['c'] == 'ptr' and all(strip_casts(s).get('k') == 'call' or is_null_const(s) or strip_casts(s).get('null') for s in srcs) \
+                and any(strip_casts(s).get('k') == 'call' for s in srcs):
+            fresh.add(d['d'])
+    return fresh
+
+
+def _refuses_only_without_memory(u, h, depth=0):
+    """True when the static helper h returns false only on paths that pass the NULL edge of a fresh allocation
+    (or the refusing edge of another helper of the same kind): its refusal says that memory ran out, nothing else.
+    A comparison the type's range settles does not count as a way to refuse."""
+    if depth > 3 or h is None or h.body is None:
+        return False
+    cfg = h.cfg()
+    fresh = _fresh_pointer_locals(u, h)
+    zero_returns = [m.id for m in cfg.nodes if m.kind == 'return' and m.expr is not None and const_val(m.expr) == 0]
+    other = [m for m in cfg.nodes if m.kind == 'return' and m.expr is not None and const_val(m.expr) is None]
+    if other or not zero_returns or not fresh and not any(c for c in walk(h.body) if c.get('k') == 'call'):
+        return False
+
+    def out_of_memory(n, label):
+        if n.kind != 'branch' or label is None or label[0] not in ('T', 'F'):
+            return False
+        e = strip_casts(n.expr)
+        if _range_decides(u, e) == (label[0] != 'T'):
+            return True                     # this edge is never taken
+        ref, isnull = _null_edge_of(e)
+        if ref is not None and ref.get('d') in fresh:
+            return label[0] == isnull
+        neg = False
+        while e.get('k') == 'un' and e['op'] == '!':
+            neg = not neg
+            e = strip_casts(e['e'])
+        if e.get('k') == 'call':
+            g = u.functions.get(callee_name(e))
+            if g is not None and g is not h and _refuses_only_without_memory(u, g, depth + 1):
+                return label[0] == ('T' if neg else 'F')
+        return False
+    live = region_without_edges(cfg, out_of_memory)
+    return not any(z in live for z in zero_returns)
+
+
 def gen1(units, R):
     """create_patches (the self-recursive function the GeneratePatches entry points hand their fresh array to): a branch whose
     condition is not computed from the two documents - not a parameter `from`/`to`, nothing assigned from them - and is not the
@@ -899,9 +965,19 @@ def gen1(units, R):
                 continue
             silent = []
             loud = []
+            # a helper that refuses only when an allocation of its own failed: its refusing edge is the allocation failure above
+            ec, negc = e, False
+            while ec.get('k') == 'un' and ec['op'] == '!':
+                negc = not negc
+                ec = strip_casts(ec['e'])
+            refusing = None
+            if ec.get('k') == 'call' and callee_name(ec) in u.functions and _refuses_only_without_memory(u, u.functions[callee_name(ec)]):
+                refusing = 'T' if negc else 'F'
             for (y, l) in cfg.succ[m.id]:
                 if l is not None and l[0] in ('T', 'F') and _range_decides(u, e) == (l[0] != 'T'):
                     continue        # the edge cannot be taken: the comparison is settled by the range of the operand's type
+                if l is not None and refusing is not None and l[0] == refusing:
+                    continue
                 (loud if (y in can_emit) else silent).append((y, l))
             bad = bool(silent) and bool(loud)
             R.ob('GEN1', h, e, 'the condition %s, which does not come from the two documents, does not decide whether differences are reported' % expr_str(e)[:50],
@@ -981,6 +1057,19 @@ def dig1(units, R, unit_names=('cJSON.c', 'cJSON_Utils.c')):
     R.ob('DIG1', None, None, 'digit-counting loops examined', True, '%d loops' % n, key='census', file='cJSON_Utils.c', line=0)
 
 
+def _buffer_key(e):
+    """The storage a text is printed into: a variable, or a member of the record a variable points to; the position inside it
+    (buffer + length) does not matter."""
+    e = strip_casts(e)
+    while e.get('k') == 'bin' and e['op'] == '+':
+        e = strip_casts(e['l'])
+    if e.get('k') == 'ref':
+        return e['d']
+    if e.get('k') == 'mem' and strip_casts(e['b']).get('k') == 'ref':
+        return (strip_casts(e['b'])['d'], e['f'])
+    return None
+
+
 def gen2(units, R, floor=1):
     """Array edit scripts of the patch generator.  Where a loop emits one "add" or "remove" operation per leftover element and
     names the position with an index printed (sprintf, integer conversion) from a counter, RFC 6902 application shifts the
@@ -1011,10 +1100,10 @@ def gen2(units, R, floor=1):
         for c in fn.calls():
             if callee_name(c) not in ('sprintf', 'snprintf') or len(c['args']) < 3:
                 continue
-            b = strip_casts(c['args'][0])
+            bkey = _buffer_key(c['args'][0])
             fi = 1 if callee_name(c) == 'sprintf' else 2
             f = strip_casts(c['args'][fi]) if fi < len(c['args']) else {}
-            if b.get('k') != 'ref' or f.get('k') != 'str':
+            if bkey is None or f.get('k') != 'str':
                 continue
             fmt = bytes(f['bytes']).decode('latin1')
             if len(INTCONV.findall(fmt)) != 1:
@@ -1027,7 +1116,7 @@ def gen2(units, R, floor=1):
                 continue
             iv = strip_casts(c['args'][fi + 1 + pos[0]])
             if iv.get('k') == 'ref' and u.ty(iv.get('ty0', iv['ty']))['c'] == 'int':
-                prints.append((c, b['d'], iv['d']))
+                prints.append((c, bkey, iv['d']))
         if not prints:
             continue
         # pointers that are only ever pointed at an index buffer (or NULL) stand for that buffer
@@ -1077,11 +1166,39 @@ def gen2(units, R, floor=1):
                         steps.setdefault(d, {})[m.id] = 0
         for (c, op) in emits:
             bufs = {alias.get(x['d'], x['d']) for a in c['args'] for x in walk(a) if x.get('k') == 'ref' and alias.get(x.get('d'), x.get('d')) in bufset}
+            bufs |= {k for a in c['args'] for x in walk(a) if x.get('k') == 'mem' for k in [_buffer_key(x)] if k in bufset}
             if not bufs:
                 continue
             node = node_containing(cfg, c)
             if not on_cycle_without(node.id, set()):
                 continue            # a single operation, not one per element
+            # the printed index must still be in the buffer: a store into the buffer between the print and the call (the path cut
+            # back to its former length) leaves the text that was there before
+            live = set()
+            for bd in bufs:
+                kills = set()
+                for m in cfg.nodes:
+                    for ev in node_effects(m):
+                        if ev.kind == 'store' and strip_casts(ev.lhs).get('k') in ('idx', 'un') and \
+                                _buffer_key(strip_casts(ev.lhs).get('b', strip_casts(ev.lhs).get('e'))) == bd:
+                            kills.add(m.id)
+                for p_ in prints:
+                    if p_[1] != bd:
+                        continue
+                    pn = node_containing(cfg, p_[0]).id
+                    seen = set()
+                    work = [pn]
+                    while work:
+                        x = work.pop()
+                        for y in succ[x]:
+                            if y == node.id:
+                                live.add(bd)
+                            if y not in seen and y not in kills:
+                                seen.add(y)
+                                work.append(y)
+            bufs = {b_ for b_ in bufs if b_ in live}
+            if not bufs:
+                continue
             # direction of the walk: the element handed to the emitter / tested by the loop is stepped through next or prev
             walk_fields = set()
             for m in cfg.nodes:
@@ -1096,7 +1213,7 @@ def gen2(units, R, floor=1):
             if 'prev' in walk_fields:
                 R.note('GEN2: %s: the loop around the "%s" at line %d walks backwards; not judged' % (fn.name, op, node.line))
                 continue
-            for bd in sorted(bufs):
+            for bd in sorted(bufs, key=repr):
                 for ctr in sorted({p[2] for p in prints if p[1] == bd}):
                     n += 1
                     pnodes = {node_containing(cfg, p[0]).id for p in prints if p[1] == bd and p[2] == ctr}
